@@ -50,12 +50,15 @@ def imp_deck(g):
     deck = {'cells': cells, 'surfs': surfs, 'impcards': []}
     # plain values are written as integers or, in every third deck, as reals ('1.0', '2.', '0.0'): same numbers
     style = (len(g['tokN']) + g['ncell'] + len(g['tokP'])) % 3
+    tiny = (len(g['tokN']) + 2 * g['ncell']) % 4 == 1     # every importance of the card a million million times smaller
     def spell(toks):
         out = [tok_text(t) for t in toks]
         if style == 1:
             out = [w + '.0' if w.isdigit() else w for w in out]
         elif style == 2:
             out = [w + '.' if w.isdigit() else w for w in out]
+        if tiny:
+            out = [(w + 'e-12' if w.isdigit() and int(w) else (w + ('0e-12' if w.endswith('.') else 'e-12') if w[0].isdigit() and w[-1] not in 'rmiRMI' and float(w) else w)) for w in out]
         return out
     if g['mode'] in ('data1', 'data2'):
         deck['impcards'].append({'par': 'n', 'tokens': spell(g['tokN'])})
